@@ -120,12 +120,29 @@ func c12Eval(c *fw.Ctx, k c12Case) (sig, desc string, nontrivial bool) {
 	(&BFile{L: l, Rings: r1}).Write(filepath.Join(root, "it", "x", "a.wsp"))
 	(&BFile{L: l, Rings: r2}).Write(filepath.Join(root, "it", "x", "b.wsp"))
 	(&BFile{L: l, Rings: r2}).Write(filepath.Join(root, "it", "y", "a.wsp"))
+	// names that need escaping on the wire or contain white space
+	(&BFile{L: l, Rings: r2}).Write(filepath.Join(root, "g", "c d+e&f.wsp"))
+	(&BFile{L: l, Rings: r1}).Write(filepath.Join(root, "it", "z w", "a b.wsp"))
+	(&BFile{L: l, Rings: r1}).Write(filepath.Join(root, "sp ace%41#.wsp"))
 	file, glob, item, srcpat := "a.wsp", "g/*.wsp", "it/*", "*.wsp"
 	switch k.Target {
 	case "missing":
 		file, glob, item, srcpat = "nope.wsp", "g/nope.wsp", "it/x", "z*.wsp"
 	case "nomatch":
 		file, glob, item, srcpat = "nodir/a.wsp", "g/z*.wsp", "no/*", "*.wsp"
+	case "odd-name":
+		file, glob, item, srcpat = "sp ace%41#.wsp", "g/c*.wsp", "it/z*", "a*.wsp"
+	case "big":
+		file, glob, item, srcpat = "big/a.wsp", "big/*.wsp", "bigit/*", "*.wsp"
+		bl := wsp.Layout{Archs: wsp.ParseLayout("1s:150000s,60s:600000s"), Method: 2}
+		br := EmptyRings(bl)
+		for j := int64(0); j < 150000; j += 7 {
+			t := k.Now - j
+			br[0][uint32(t)%150000] = wsp.Slot{T: uint32(t), V: float64(j%100) + 0.5}
+		}
+		(&BFile{L: bl, Rings: br}).Write(filepath.Join(root, "big", "a.wsp"))
+		(&BFile{L: bl, Rings: br}).Write(filepath.Join(root, "bigit", "x", "a.wsp"))
+		l = bl
 	}
 	type obs struct {
 		cls, text string
@@ -140,6 +157,10 @@ func c12Eval(c *fw.Ctx, k c12Case) (sig, desc string, nontrivial bool) {
 		(&BFile{L: l, Rings: r2}).Write(filepath.Join(ddir, "a.wsp"))
 		(&BFile{L: l, Rings: r2}).Write(filepath.Join(ddir, "g", "a.wsp"))
 		(&BFile{L: l, Rings: r2}).Write(filepath.Join(ddir, "g", "b.wsp"))
+		if k.Target == "big" {
+			os.RemoveAll(ddir)
+			(&BFile{L: l, Rings: EmptyRings(l)}).Write(filepath.Join(ddir, "big", "a.wsp"))
+		}
 		if strings.HasPrefix(k.Cmd, "diff") {
 			// only ONE side may be missing: with two faults the reported one depends on goroutine timing
 			(&BFile{L: l, Rings: r2}).Write(filepath.Join(ddir, "nope.wsp"))
@@ -174,7 +195,7 @@ func c12Eval(c *fw.Ctx, k c12Case) (sig, desc string, nontrivial bool) {
 		}
 		o.es += firstLine(pn)
 		if strings.HasPrefix(k.Cmd, "copy") {
-			for _, f := range []string{"a.wsp", "g/a.wsp", "g/b.wsp"} {
+			for _, f := range []string{"a.wsp", "g/a.wsp", "g/b.wsp", "g/c d+e&f.wsp", "sp ace%41#.wsp", "big/a.wsp"} {
 				b, _ := os.ReadFile(filepath.Join(ddir, f))
 				o.dest = append(o.dest, b...)
 			}
@@ -203,6 +224,7 @@ func runC12(c *fw.Ctx) {
 	clocks := Clocks(ld.Archs, false, []string{"mid"})
 	rmax, r0 := ld.Archs[1].Ret(), ld.Archs[0].Ret()
 	codes := allCodes(5, 3)
+	c.R.Bounds["big"] = "one 2.4 MB file (1s:150000s,60s:600000s, every 7th slot filled) read over its whole retention by view, view-raw, sum, diff, copy"
 	c.R.Bounds["worlds"] = "L4: every content of the main file over {absent, 0.1, -2} (243) x a rotating second file; tree with a plain file, a glob directory of two files and two items"
 	c.R.Bounds["options"] = "commands view, view-raw, sum, diff, diff with glob, copy, copy with glob, sum-diff x target existing/missing/non-matching x archive all/0/1/2(out of range) x 5 windows x 2 clocks"
 	idx := 0
@@ -216,8 +238,23 @@ func runC12(c *fw.Ctx) {
 				return
 			}
 			code2 := codes[(si*7+11*ci)%len(codes)]
+			if si%61 == 0 {
+				// a served file whose whole-retention answer is larger than a megabyte
+				for _, cmd := range []string{"view", "sum", "diff", "copy", "view-raw"} {
+					k := c12Case{Code: code, Code2: code2, Now: now, Cmd: cmd, Target: "big", Archive: -1}
+					sig, desc, nt := c12Eval(c, k)
+					c.Count("evaluations", 1)
+					if nt {
+						c.Count("distinct_nontrivial", 1)
+					}
+					c.Outcome(cmd + "/big")
+					if sig != "" {
+						c.Violate(sig, clip(desc, 1500), 50, k, "")
+					}
+				}
+			}
 			for _, cmd := range []string{"view", "view-raw", "sum", "diff", "diff-glob", "copy", "copy-glob", "sum-diff"} {
-				for _, target := range []string{"existing", "missing", "nomatch"} {
+				for _, target := range []string{"existing", "missing", "nomatch", "odd-name"} {
 					for ai, arch := range []int{-1, 0, 1, 2} {
 						for wi, w := range wins {
 							idx++
